@@ -1,0 +1,186 @@
+// Copyright 2020-2025 Buf Technologies, Inc.
+//
+// Licensed under the Apache License, Version 2.0 (the "License");
+// you may not use this file except in compliance with the License.
+// You may obtain a copy of the License at
+//
+//      http://www.apache.org/licenses/LICENSE-2.0
+//
+// Unless required by applicable law or agreed to in writing, software
+// distributed under the License is distributed on an "AS IS" BASIS,
+// WITHOUT WARRANTIES OR CONDITIONS OF ANY KIND, either express or implied.
+// See the License for the specific language governing permissions and
+// limitations under the License.
+
+//go:build verif
+
+package bufconfig
+
+// Contracts for the gocv verifier (see /verif/DESIGN.md). Comment-only. Author: ca-r4c.
+//
+// Managed mode configuration: the public constructors, the override-value parsers ("a value of the wrong type for
+// the option is an error, never silently coerced") and the v1 / v1beta1 readers of the managed section
+// (C18: "exactly the options its configuration governs"; C16: what is read is what was written).
+//
+// The constructor stores its three arguments as they are.
+//@ func NewGenerateManagedConfig(enabled, disables, overrides) (r)
+//@   property C16 C18
+//@   ensures typed: r != nil && cast(*generateManagedConfig, r) != nil
+//@   ensures kept: cast(*generateManagedConfig, r).enabled == enabled && cast(*generateManagedConfig, r).disables == disables && cast(*generateManagedConfig, r).overrides == overrides
+//
+// The public disable-rule constructor validates like the private one: "A ManagedDisableRule is guaranteed to specify
+// at least one of the two aspects"; FieldName is "guaranteed to be empty if FileOption is not empty"; at most one of
+// file option and field option.
+//@ func NewManagedDisableRule(path, moduleFullName, fieldName, fileOption, fieldOption) (r, err)
+//@   property C16 C18
+//@   ensures typed: err == nil ==> r != nil && cast(*managedDisableRule, r) != nil
+//@   ensures kept: err == nil ==> cast(*managedDisableRule, r).path == path && cast(*managedDisableRule, r).moduleFullName == moduleFullName && cast(*managedDisableRule, r).fieldName == fieldName && cast(*managedDisableRule, r).fileOption == fileOption && cast(*managedDisableRule, r).fieldOption == fieldOption
+//@   ensures empty-rejected: path == "" && moduleFullName == "" && fieldName == "" && fileOption == FileOptionUnspecified && fieldOption == FieldOptionUnspecified ==> err != nil
+//@   ensures file-option-for-field-rejected: fieldName != "" && fileOption != FileOptionUnspecified ==> err != nil
+//@   ensures two-options-rejected: fileOption != FileOptionUnspecified && fieldOption != FieldOptionUnspecified ==> err != nil
+//@   ensures path-normal: err == nil && path != "" ==> validRel(path) && path == normalpath.Normalize(path)
+//@   ensures module-parses: err == nil && moduleFullName != "" ==> second(bufparse.ParseFullName(moduleFullName)) == nil
+//@   canary ensures err != nil
+//
+// Override values. A string / bool option takes exactly a value of that Go type, unchanged.
+//@ pure func parseOverrideValue(overrideValue) (r, err)
+//@   property C16 C18
+//@   ensures same-value: err == nil ==> r == overrideValue
+//@   ensures right-type: err == nil ==> overrideValue != nil && typeOf(overrideValue) == typeId(T)
+//@   ensures wrong-type-rejected: overrideValue == nil || typeOf(overrideValue) != typeId(T) ==> err != nil
+//@   canary ensures err != nil
+//@   canary ensures err == nil
+//
+// optimize_for takes the NAME of an optimize mode (SPEED, CODE_SIZE, LITE_RUNTIME) and yields the enum value.
+//@ pure func parseOverrideValueOptimizeMode(overrideValue) (r, err)
+//@   property C16 C18
+//@   ensures name-of-a-mode: err == nil ==> overrideValue != nil && typeOf(overrideValue) == typeId(string) && cast(string, overrideValue) in descriptorpb.FileOptions_OptimizeMode_value
+//@   ensures enum-value: err == nil ==> r != nil && typeOf(r) == typeId(descriptorpb.FileOptions_OptimizeMode) && cast(descriptorpb.FileOptions_OptimizeMode, r) == descriptorpb.FileOptions_OptimizeMode_value[cast(string, overrideValue)]
+//@   ensures not-a-string-rejected: overrideValue == nil || typeOf(overrideValue) != typeId(string) ==> err != nil
+//@   ensures unknown-name-rejected: overrideValue != nil && typeOf(overrideValue) == typeId(string) && !(cast(string, overrideValue) in descriptorpb.FileOptions_OptimizeMode_value) ==> err != nil
+//@   canary ensures err != nil
+//@   canary ensures err == nil
+//
+// jstype takes the NAME of a JS type (JS_NORMAL, JS_STRING, JS_NUMBER) and yields the enum value.
+//@ pure func parseOverrideValueJSType(override) (r, err)
+//@   property C16 C18
+//@   ensures name-of-a-jstype: err == nil ==> override != nil && typeOf(override) == typeId(string) && cast(string, override) in descriptorpb.FieldOptions_JSType_value
+//@   ensures enum-value: err == nil ==> r != nil && typeOf(r) == typeId(descriptorpb.FieldOptions_JSType) && cast(descriptorpb.FieldOptions_JSType, r) == descriptorpb.FieldOptions_JSType_value[cast(string, override)]
+//@   ensures not-a-string-rejected: override == nil || typeOf(override) != typeId(string) ==> err != nil
+//@   ensures unknown-name-rejected: override != nil && typeOf(override) == typeId(string) && !(cast(string, override) in descriptorpb.FieldOptions_JSType_value) ==> err != nil
+//@   canary ensures err != nil
+//@   canary ensures err == nil
+//
+// Writing an override value back (v2 writer): exactly one option name; string / bool options give the value as it
+// is; the two enum-valued options (optimize_for, jstype) give the NAME of the enum value, and a value that is not of
+// the option's enum type is an error (never written as a number or coerced).
+//@ pure func getOverrideValue(fileOptionName, fieldOptionName, value) (r, err)
+//@   property C16 C18
+//@   ensures both-set-rejected: fileOptionName != "" && fieldOptionName != "" ==> err != nil
+//@   ensures neither-set-rejected: fileOptionName == "" && fieldOptionName == "" ==> err != nil
+//@   ensures unknown-file-option-rejected: fileOptionName != "" && second(parseFileOption(fileOptionName)) != nil ==> err != nil
+//@   ensures unknown-field-option-rejected: fileOptionName == "" && fieldOptionName != "" && second(parseFieldOption(fieldOptionName)) != nil ==> err != nil
+//@   ensures plain-option-value-as-it-is: fileOptionName != "" && fieldOptionName == "" && second(parseFileOption(fileOptionName)) == nil && (first(parseFileOption(fileOptionName)) == FileOptionJavaPackage || first(parseFileOption(fileOptionName)) == FileOptionJavaPackagePrefix || first(parseFileOption(fileOptionName)) == FileOptionJavaPackageSuffix || first(parseFileOption(fileOptionName)) == FileOptionJavaOuterClassname || first(parseFileOption(fileOptionName)) == FileOptionJavaMultipleFiles || first(parseFileOption(fileOptionName)) == FileOptionJavaStringCheckUtf8 || first(parseFileOption(fileOptionName)) == FileOptionGoPackage || first(parseFileOption(fileOptionName)) == FileOptionGoPackagePrefix || first(parseFileOption(fileOptionName)) == FileOptionCcEnableArenas || first(parseFileOption(fileOptionName)) == FileOptionObjcClassPrefix || first(parseFileOption(fileOptionName)) == FileOptionCsharpNamespace || first(parseFileOption(fileOptionName)) == FileOptionCsharpNamespacePrefix || first(parseFileOption(fileOptionName)) == FileOptionPhpNamespace || first(parseFileOption(fileOptionName)) == FileOptionPhpMetadataNamespace || first(parseFileOption(fileOptionName)) == FileOptionPhpMetadataNamespaceSuffix || first(parseFileOption(fileOptionName)) == FileOptionRubyPackage || first(parseFileOption(fileOptionName)) == FileOptionRubyPackageSuffix) ==> err == nil && r == value
+//@   ensures only-optimize-for-is-translated: err == nil && fileOptionName != "" && first(parseFileOption(fileOptionName)) != FileOptionOptimizeFor ==> r == value
+//@   ensures optimize-for-by-name: fileOptionName != "" && fieldOptionName == "" && second(parseFileOption(fileOptionName)) == nil && first(parseFileOption(fileOptionName)) == FileOptionOptimizeFor && value != nil && typeOf(value) == typeId(descriptorpb.FileOptions_OptimizeMode) ==> err == nil && r != nil && typeOf(r) == typeId(string) && cast(string, r) == cast(descriptorpb.FileOptions_OptimizeMode, value).String()
+//@   ensures optimize-for-wrong-type-rejected: fileOptionName != "" && fieldOptionName == "" && second(parseFileOption(fileOptionName)) == nil && first(parseFileOption(fileOptionName)) == FileOptionOptimizeFor && !(value != nil && typeOf(value) == typeId(descriptorpb.FileOptions_OptimizeMode)) ==> err != nil
+//@   ensures jstype-by-name: fileOptionName == "" && fieldOptionName != "" && second(parseFieldOption(fieldOptionName)) == nil && first(parseFieldOption(fieldOptionName)) == FieldOptionJSType && value != nil && typeOf(value) == typeId(descriptorpb.FieldOptions_JSType) ==> err == nil && r != nil && typeOf(r) == typeId(string) && cast(string, r) == cast(descriptorpb.FieldOptions_JSType, value).String()
+//@   ensures jstype-wrong-type-rejected: fileOptionName == "" && fieldOptionName != "" && !(value != nil && typeOf(value) == typeId(descriptorpb.FieldOptions_JSType)) ==> err != nil
+//@   canary ensures err != nil
+//@   canary ensures err == nil
+//
+// ---- v1 / v1beta1 readers of the managed section ----
+// A v1 option section is absent exactly when every key of it is empty.
+//@ pure func (e externalJavaPackagePrefixConfigV1) isEmpty() (r)
+//@   property C16 C18
+//@   ensures r <==> (e.Default == "" && len(e.Except) == 0 && len(e.Override) == 0)
+//@ pure func (e externalOptimizeForConfigV1) isEmpty() (r)
+//@   property C16 C18
+//@   ensures r <==> (e.Default == "" && len(e.Except) == 0 && len(e.Override) == 0)
+//@ pure func (e externalGoPackagePrefixConfigV1) isEmpty() (r)
+//@   property C16 C18
+//@   ensures r <==> (e.Default == "" && len(e.Except) == 0 && len(e.Override) == 0)
+//@ pure func (e externalObjcClassPrefixConfigV1) isEmpty() (r)
+//@   property C16 C18
+//@   ensures r <==> (e.Default == "" && len(e.Except) == 0 && len(e.Override) == 0)
+//@ pure func (e externalCsharpNamespaceConfigV1) isEmpty() (r)
+//@   property C16 C18
+//@   ensures r <==> (len(e.Except) == 0 && len(e.Override) == 0)
+//@ pure func (e externalRubyPackageConfigV1) isEmpty() (r)
+//@   property C16 C18
+//@   ensures r <==> (len(e.Except) == 0 && len(e.Override) == 0)
+//
+// `except` / `override` of one v1 option: every except module becomes ONE disable rule scoped to that module and to
+// the option's value kind (nothing else is disabled); every override module becomes one override rule scoped to that
+// module for the option's override kind; a module listed twice in except, or both excepted and overridden, or a name
+// that is not a module name, is an error and yields no rule at all.
+// (NewManagedOverrideRuleForFileOption parses the value through a table of function values = heap havoc, so the
+// per-rule facts are stated where the rule is appended, not on the final slices.)
+//@ func disablesAndOverridesFromExceptAndOverrideV1(exceptFileOption, exceptFullNames, overrideFileOption, moduleFullNameToOverride) (disables, overrides, err)
+//@   property C16 C18
+//@   modifies heap, ghost.fail, ghost.wfail
+//@   ensures one-disable-per-except: err == nil ==> len(disables) == len(exceptFullNames)
+//@   ensures no-override-no-rule: err == nil && (forall k string :: !(k in moduleFullNameToOverride)) ==> len(overrides) == 0
+//@   ensures error-yields-nothing: err != nil ==> len(disables) == 0 && len(overrides) == 0
+//@   ensures duplicate-except-rejected: (exists i int, j int :: 0 <= i && i < j && j < len(exceptFullNames) && exceptFullNames[i] == exceptFullNames[j]) ==> err != nil
+//@   ensures invalid-except-module-rejected: (exists i int :: 0 <= i && i < len(exceptFullNames) && second(bufparse.ParseFullName(exceptFullNames[i])) != nil) ==> err != nil
+//@   ensures excepted-and-overridden-rejected: (exists i int :: 0 <= i && i < len(exceptFullNames) && exceptFullNames[i] in moduleFullNameToOverride) ==> err != nil
+//@   ensures invalid-override-module-rejected: (exists k string :: k in moduleFullNameToOverride && second(bufparse.ParseFullName(k)) != nil) ==> err != nil
+//@   assert before "disables = append(disables, disable)" disable-scoped-to-module-and-option: cast(*managedDisableRule, disable) != nil && cast(*managedDisableRule, disable).path == "" && cast(*managedDisableRule, disable).moduleFullName == exceptFullName && cast(*managedDisableRule, disable).fieldName == "" && cast(*managedDisableRule, disable).fileOption == exceptFileOption && cast(*managedDisableRule, disable).fieldOption == FieldOptionUnspecified
+//@   assert before "overrides = append(overrides, override)" override-scoped-to-module-and-option: cast(*managedOverrideRule, override) != nil && cast(*managedOverrideRule, override).path == "" && cast(*managedOverrideRule, override).moduleFullName == overrideFullName && cast(*managedOverrideRule, override).fieldName == "" && cast(*managedOverrideRule, override).fileOption == overrideFileOption && cast(*managedOverrideRule, override).fieldOption == FieldOptionUnspecified && overrideFullName in moduleFullNameToOverride
+//@   loop 0 invariant len(disables) == $i && len(overrides) == 0 && seenExceptFullNames != nil
+//@   loop 0 invariant forall k string :: k in seenExceptFullNames <==> (exists j int :: 0 <= j && j < $i && exceptFullNames[j] == k)
+//@   loop 0 invariant forall a int, b int :: 0 <= a && a < b && b < $i ==> exceptFullNames[a] != exceptFullNames[b]
+//@   loop 0 invariant forall j int :: 0 <= j && j < $i ==> second(bufparse.ParseFullName(exceptFullNames[j])) == nil
+//@   loop 1 invariant len(disables) == len(exceptFullNames) && len(overrides) == $i
+//@   loop 1 invariant forall k string :: k in seenExceptFullNames <==> (exists j int :: 0 <= j && j < len(exceptFullNames) && exceptFullNames[j] == k)
+//@   loop 1 invariant forall a int, b int :: 0 <= a && a < b && b < len(exceptFullNames) ==> exceptFullNames[a] != exceptFullNames[b]
+//@   loop 1 invariant forall j int :: 0 <= j && j < len(exceptFullNames) ==> second(bufparse.ParseFullName(exceptFullNames[j])) == nil
+//@   loop 1 invariant forall j int :: 0 <= j && j < $i ==> second(bufparse.ParseFullName(sortedFullNames[j])) == nil && !(sortedFullNames[j] in seenExceptFullNames)
+//@   canary ensures err != nil
+//
+// The v1 per-file `override` map (file option name -> file path -> value): one override rule per (option, path),
+// scoped to exactly that path and that option; an unknown option name, a path not in normal form, or a value that is
+// not a boolean for one of the three boolean options is an error (never coerced) and yields no rule.
+//@ func overrideRulesForPerFileOverridesV1(fileOptionToFilePathToOverride) (r, err)
+//@   property C16 C18
+//@   modifies heap, ghost.fail, ghost.wfail
+//@   ensures error-yields-nothing: err != nil ==> len(r) == 0
+//@   ensures no-override-no-rule: err == nil && (forall k string :: !(k in fileOptionToFilePathToOverride)) ==> len(r) == 0
+//@   ensures unknown-option-rejected: (exists k string :: k in fileOptionToFilePathToOverride && !(strings.ToLower(k) in stringToFileOption)) ==> err != nil
+//@   ensures path-not-normal-rejected: (exists k string, p string :: k in fileOptionToFilePathToOverride && p in fileOptionToFilePathToOverride[k] && validatePath(p) != nil) ==> err != nil
+//@   ensures non-boolean-for-boolean-option-rejected: (exists k string, p string :: k in fileOptionToFilePathToOverride && p in fileOptionToFilePathToOverride[k] && strings.ToLower(k) in stringToFileOption && (stringToFileOption[strings.ToLower(k)] == FileOptionCcEnableArenas || stringToFileOption[strings.ToLower(k)] == FileOptionJavaMultipleFiles || stringToFileOption[strings.ToLower(k)] == FileOptionJavaStringCheckUtf8) && second(strconv.ParseBool(fileOptionToFilePathToOverride[k][p])) != nil) ==> err != nil
+//@   assert before "overrideRules = append(overrideRules, overrideRule)" rule-scoped-to-path-and-option: cast(*managedOverrideRule, overrideRule) != nil && cast(*managedOverrideRule, overrideRule).path == filePath && cast(*managedOverrideRule, overrideRule).moduleFullName == "" && cast(*managedOverrideRule, overrideRule).fieldName == "" && cast(*managedOverrideRule, overrideRule).fieldOption == FieldOptionUnspecified && cast(*managedOverrideRule, overrideRule).fileOption == stringToFileOption[strings.ToLower(fileOptionString)] && fileOptionString in fileOptionToFilePathToOverride && filePath in fileOptionToFilePathToOverride[fileOptionString]
+//@   loop 0 invariant forall j int :: 0 <= j && j < $i ==> strings.ToLower(sortedFileOptionStrings[j]) in stringToFileOption
+//@   loop 0 invariant forall k string, p string :: (exists j int :: 0 <= j && j < $i && sortedFileOptionStrings[j] == k) && p in fileOptionToFilePathToOverride[k] ==> validatePath(p) == nil && ((stringToFileOption[strings.ToLower(k)] == FileOptionCcEnableArenas || stringToFileOption[strings.ToLower(k)] == FileOptionJavaMultipleFiles || stringToFileOption[strings.ToLower(k)] == FileOptionJavaStringCheckUtf8) ==> second(strconv.ParseBool(fileOptionToFilePathToOverride[k][p])) == nil)
+//@   loop 0 invariant (forall k string :: !(k in fileOptionToFilePathToOverride)) ==> len(overrideRules) == 0
+//@   loop 1 invariant $i0 < len(sortedFileOptionStrings) && fileOptionString == sortedFileOptionStrings[$i0] && strings.ToLower(fileOptionString) in stringToFileOption && fileOption == stringToFileOption[strings.ToLower(fileOptionString)] && filePathToOverride == fileOptionToFilePathToOverride[fileOptionString]
+//@   loop 1 invariant forall j int :: 0 <= j && j < $i ==> validatePath(sortedFilePaths[j]) == nil && ((fileOption == FileOptionCcEnableArenas || fileOption == FileOptionJavaMultipleFiles || fileOption == FileOptionJavaStringCheckUtf8) ==> second(strconv.ParseBool(filePathToOverride[sortedFilePaths[j]])) == nil)
+//@   loop 1 invariant forall p string :: p in filePathToOverride ==> (exists j int :: 0 <= j && j < len(sortedFilePaths) && sortedFilePaths[j] == p)
+//@   loop 1 invariant forall j int :: 0 <= j && j < len(sortedFilePaths) ==> sortedFilePaths[j] in filePathToOverride
+//@   loop 1 invariant forall j int :: 0 <= j && j < $i0 ==> strings.ToLower(sortedFileOptionStrings[j]) in stringToFileOption
+//@   loop 1 invariant forall k string, p string :: (exists j int :: 0 <= j && j < $i0 && sortedFileOptionStrings[j] == k) && p in fileOptionToFilePathToOverride[k] ==> validatePath(p) == nil && ((stringToFileOption[strings.ToLower(k)] == FileOptionCcEnableArenas || stringToFileOption[strings.ToLower(k)] == FileOptionJavaMultipleFiles || stringToFileOption[strings.ToLower(k)] == FileOptionJavaStringCheckUtf8) ==> second(strconv.ParseBool(fileOptionToFilePathToOverride[k][p])) == nil)
+//@   loop 1 invariant (forall k string :: !(k in fileOptionToFilePathToOverride)) ==> len(overrideRules) == 0
+//@   loop 1 invariant fileOptionString in fileOptionToFilePathToOverride
+//@   canary ensures err != nil
+//
+// v1beta1 `options` section: managed mode governs exactly the options that are set (cc_enable_arenas,
+// java_multiple_files, optimize_for), each as ONE override for all files (no path, no module); nothing is disabled.
+//@ func newGenerateManagedConfigFromExternalV1Beta1(enabled, externalConfig) (r, err)
+//@   property C16 C18
+//@   modifies heap, ghost.fail, ghost.wfail
+//@   ensures typed: err == nil ==> r != nil && cast(*generateManagedConfig, r) != nil
+//@   ensures enabled-as-given: err == nil ==> cast(*generateManagedConfig, r).enabled == enabled
+//@   ensures nothing-disabled: err == nil ==> len(cast(*generateManagedConfig, r).disables) == 0
+//@   ensures one-override-per-set-option: err == nil ==> len(cast(*generateManagedConfig, r).overrides) == ite(externalConfig.CcEnableArenas != nil, 1, 0) + ite(externalConfig.JavaMultipleFiles != nil, 1, 0) + ite(externalConfig.OptimizeFor != "", 1, 0)
+//@   ensures error-nil: err != nil ==> r == nil
+//@   assert before "overrides = append(overrides, override)"@1 cc-enable-arenas-for-all-files: externalConfig.CcEnableArenas != nil && cast(*managedOverrideRule, override) != nil && cast(*managedOverrideRule, override).path == "" && cast(*managedOverrideRule, override).moduleFullName == "" && cast(*managedOverrideRule, override).fieldName == "" && cast(*managedOverrideRule, override).fileOption == FileOptionCcEnableArenas && cast(*managedOverrideRule, override).fieldOption == FieldOptionUnspecified
+//@   assert before "overrides = append(overrides, override)"@2 java-multiple-files-for-all-files: externalConfig.JavaMultipleFiles != nil && cast(*managedOverrideRule, override) != nil && cast(*managedOverrideRule, override).path == "" && cast(*managedOverrideRule, override).moduleFullName == "" && cast(*managedOverrideRule, override).fieldName == "" && cast(*managedOverrideRule, override).fileOption == FileOptionJavaMultipleFiles && cast(*managedOverrideRule, override).fieldOption == FieldOptionUnspecified
+//@   assert before "overrides = append(overrides, defaultOverride)" optimize-for-for-all-files: externalConfig.OptimizeFor != "" && cast(*managedOverrideRule, defaultOverride) != nil && cast(*managedOverrideRule, defaultOverride).path == "" && cast(*managedOverrideRule, defaultOverride).moduleFullName == "" && cast(*managedOverrideRule, defaultOverride).fieldName == "" && cast(*managedOverrideRule, defaultOverride).fileOption == FileOptionOptimizeFor && cast(*managedOverrideRule, defaultOverride).fieldOption == FieldOptionUnspecified
+//@   canary ensures err != nil
+//@   canary ensures err == nil
+//
+// newGenerateManagedConfigFromExternalV1 (the v1 `managed` section) is NOT under contract: the function is a sequence
+// of ten independent optional sections (about 800 error-free paths); the engine enumerates them one by one and gave
+// no verdict within 400 s for a 12-clause contract. Its building blocks are verified above
+// (disablesAndOverridesFromExceptAndOverrideV1, overrideRulesForPerFileOverridesV1, the isEmpty methods).
